@@ -18,6 +18,16 @@ pub(crate) enum Mode {
 }
 
 impl Mode {
+  pub(crate) fn content_size_fits(&self) -> bool {
+    match self {
+      Self::Single { .. } => true,
+      Self::Multiple { files } => files
+        .iter()
+        .try_fold(0u64, |sum, file| sum.checked_add(file.length.count()))
+        .is_some(),
+    }
+  }
+
   pub(crate) fn content_size(&self) -> Bytes {
     match self {
       Self::Single { length, .. } => *length,
